@@ -352,6 +352,11 @@ func (p c09) check(rc Recipe, st State, valid bool, rep *runner.Reporter) {
 						if len(t.LocalAddr) != len(parent.LocalAddr)+1 || !lang.Address(t.LocalAddr[:len(parent.LocalAddr)]).Equals(parent.LocalAddr) {
 							viol("NESTED local-address-not-parent-plus-one-step", fmt.Sprintf("nested target local address %s vs parent %s", t.LocalAddr, parent.LocalAddr))
 						}
+						// the block-local name of a nested declaration mirrors its absolute
+						// address: both were extended by the same step
+						if len(t.Addr) > 0 && t.LocalAddr[len(t.LocalAddr)-1].String() != t.Addr[len(t.Addr)-1].String() {
+							viol("NESTED local-address-last-step-differs-from-address", fmt.Sprintf("nested target %s has the local address %s: the last steps differ", t.Addr, t.LocalAddr))
+						}
 					}
 					rep.NonTrivial(fmt.Sprintf("nested|%s|d%d|valid=%t", stepKind, depth, valid))
 					// (a block collection's own range only spans the run of adjacent
